@@ -53,8 +53,23 @@ func runImpl(sel string, d *Desc, glyphs []int) (res implResult, err error) {
 	}
 	res.orig = f
 	// the case line must describe the font exactly: re-project and compare
-	if back := Project(f); CaseLine(sel, back, nil, nil) != CaseLine(sel, normalise(d), nil, nil) {
-		return res, fmt.Errorf("case is not a fixed point of build/project:\n %s\n %s", CaseLine(sel, back, nil, nil), CaseLine(sel, normalise(d), nil, nil))
+	if a, b := CaseLine(sel, Project(f), nil, nil), CaseLine(sel, normalise(d), nil, nil); a != b {
+		i := 0
+		for i < len(a) && i < len(b) && a[i] == b[i] {
+			i++
+		}
+		lo := i - 120
+		if lo < 0 {
+			lo = 0
+		}
+		cut := func(x string) string {
+			hi := i + 120
+			if hi > len(x) {
+				hi = len(x)
+			}
+			return x[lo:hi]
+		}
+		return res, fmt.Errorf("case is not a fixed point of build/project (first difference at %d):\n projected: ...%s...\n case:      ...%s...", i, cut(a), cut(b))
 	}
 	gids := toGIDs(glyphs)
 	var sub *sfnt.Font
